@@ -48,6 +48,7 @@ func randCfg(r drv.Rand) worldCfg {
 	c.cfgStyle = r.IntN(3)
 	c.audHas = r.Chance(1, 3)
 	c.debugLog = r.Chance(1, 3)
+	c.sharedRT = r.Chance(1, 2)
 	if r.Chance(1, 3) {
 		c.srvOpt = 1 + r.IntN(3)
 	}
@@ -58,7 +59,7 @@ func randCfg(r drv.Rand) worldCfg {
 }
 
 func cfgTags(c worldCfg) []string {
-	return []string{fmt.Sprintf("spare=%v", c.spare), fmt.Sprintf("userEp=%v", c.userEp > 0), fmt.Sprintf("cfgStyle=%d", c.cfgStyle), "alg=" + string(sigAlgs[c.sigAlg]), fmt.Sprintf("debugLog=%v", c.debugLog), fmt.Sprintf("srvOpt=%d", c.srvOpt)}
+	return []string{fmt.Sprintf("spare=%v", c.spare), fmt.Sprintf("userEp=%v", c.userEp > 0), fmt.Sprintf("cfgStyle=%d", c.cfgStyle), "alg=" + string(sigAlgs[c.sigAlg]), fmt.Sprintf("debugLog=%v", c.debugLog), fmt.Sprintf("sharedRT=%v", c.sharedRT), fmt.Sprintf("srvOpt=%d", c.srvOpt)}
 }
 
 var roptVerOpts = roptd{"RVerifierOpts 5", -1, func(w *world) rp.Option { return rp.WithVerifierOpts(w.rpVerOpts...) }}
@@ -271,7 +272,7 @@ func genGroup(r drv.Rand, g int, kind, tenant int) (group, string) {
 	case 3:
 		ops := []opd{newRP(i, false, tn, append(copt, roptVerOpts))}
 		for _, k := range []int{4, 5, 3, 2, 8, 9, 1} {
-			if r.Chance(1, 2) {
+			if r.Chance(1, 2) || (k == 5 && r.Bool()) {
 				ops = append(ops, rpCall(i, c, k, tn))
 			}
 		}
@@ -280,6 +281,9 @@ func genGroup(r drv.Rand, g int, kind, tenant int) (group, string) {
 		var ops []opd
 		for j := 1 + r.IntN(3); j > 0; j-- {
 			ops = append(ops, clientCall(c, r.IntN(6)))
+		}
+		if r.Chance(3, 4) { // revocation / end session: the helpers that work on a private copy of the caller's client
+			ops = append(ops, clientCall(c, 2), clientCall(c, 3))
 		}
 		return group{ops, clientCall(c, r.IntN(2))}, "client"
 	case 5: // resource servers with IDENTICAL client id / key id, possibly different issuers
@@ -304,7 +308,7 @@ func genGroup(r drv.Rand, g int, kind, tenant int) (group, string) {
 		}
 		return group{ops, helperCall(r.IntN(2), 3+r.IntN(7))}, "helpers"
 	}
-	return group{[]opd{newRP(i, true, 1, append(copt, genRopt(r))), clientCall(c, 2+r.IntN(2))}, clientCall(c, 0)}, "rpoauth"
+	return group{[]opd{newRP(i, true, 1, append(copt, genRopt(r))), clientCall(c, 2), clientCall(c, 3)}, clientCall(c, 0)}, "rpoauth"
 }
 
 func runGroupSeq(cfg worldCfg, seq []opd, probes []opd) (res [][]int, panicked string) {
